@@ -583,6 +583,9 @@ def check(run):
     # "every signature that is present verifies": the verdict of the
     # verifier, not its mere return, marks a signature as verified (C01.R7)
     _as(run, "R7", c01.r7_response_path, "R7")
+    # ... and the flags that switch verification off stay closed: only the
+    # library's own second pass may set them (C01.R6)
+    _as(run, "R8", c01.r6_bypass_flags_closed, "R6")
 
 
 def _as(run, rule, fn, orig):
